@@ -246,7 +246,13 @@ def rule_pred(ctx: Ctx, S: Search):
         # (tightened after seed C05-b) a policy entry whose action is not read from the predecessor map at all is definitely not the recorded action
         cf = cp.positional_params[1] if len(cp.positional_params) > 1 else "camefrom"
         anysto = [n for n in ast.walk(cp.node) if isinstance(n, ast.Assign) and isinstance(n.targets[0], ast.Subscript)]
-        uses_map = any(isinstance(x, ast.Name) and x.id == cf for x in ast.walk(cp.node))
+        # names that carry something read from the predecessor map
+        from_map = {cf}
+        for n_ in ast.walk(cp.node):
+            if isinstance(n_, ast.Assign) and any(isinstance(x, ast.Name) and x.id == cf for x in ast.walk(n_.value)):
+                for t_ in n_.targets:
+                    from_map |= {x.id for x in ast.walk(t_) if isinstance(x, ast.Name)}
+        uses_map = bool(anysto) and any(isinstance(x, ast.Name) and x.id in from_map for x in ast.walk(anysto[0].value))
         if anysto and not uses_map:
             ctx.violation("PRED-2", cp, anysto[0], "policy[s] = a for (s, a) = camefrom[ns]",
                           f"the plan's action for a state is recomputed (`{norm(anysto[0].value, 70)}`) instead of being the action recorded in the predecessor map `{cf}`: "
